@@ -34,7 +34,7 @@ def run(ctx):
     ctx.cov["states"] += r1.distinct
     ctx.cov["transitions"] += r1.generated
     depth, num = (K, 2) if q else (K, 8)
-    cfg = cfg_text("c08chain", depth, sizes="0..%d" % K, prop="PropC08")
+    cfg = cfg_text("c08chain", depth, sizes="{%s}" % ", ".join(map(str, range(K + 1))), prop="PropC08")
     r2 = ctx.tlc("Merkle", "Merkle_c08chain_sim.cfg", workers=1, simulate="num=%d" % num, depth=depth + 1,
                  files={"Merkle_c08chain_sim.cfg": cfg})
     long_chains = r2.emitted("CHAIN")
